@@ -29,12 +29,14 @@ def history(ctx):
     prefixes = ["prov", "xsd", "xsi", "b"]  # every prefix spelled so far in this history
     uris = []        # every namespace URI spelled so far
 
-    def shadow(si, p, u):
-        # region of open finding C03.bundle_shadows_parent_prefix: a bundle binds a prefix that the document binds
-        # to another URI; 'p:l' strings the bundle resolved through the document before now denote something else
-        if si > 0:
-            for n in scopes[0].namespaces:
-                ctx.finding("C03.bundle_shadows_parent_prefix", n.prefix == p and n.uri != u)
+    def shadow():
+        # region of open finding C03.bundle_shadows_parent_prefix: a prefix (given or minted, e.g. xsd_1) is bound
+        # in a bundle and in the document to different URIs; 'p:l' strings resolved through the document before, or
+        # printed from names the document handed out, then denote something else inside the bundle
+        for b in scopes[1:]:
+            for bn in b.namespaces:
+                for dn in scopes[0].namespaces:
+                    ctx.finding("C03.bundle_shadows_parent_prefix", bn.prefix == dn.prefix and bn.uri != dn.uri)
 
     def seen(p=None, u=None):
         # region of open finding C03.uri_scheme_is_prefix: a namespace URI that starts with '<prefix in play>:'
@@ -58,7 +60,6 @@ def history(ctx):
             p = ctx.str("p", B["P"], 1, "prefix")
             u = ctx.str("u", B["U"], 2, "uri")
             seen(p, u)
-            shadow(si, p, u)
             before = [(n.prefix, n.uri) for n in S.namespaces]
             ns = S.add_namespace(p, u)
             ctx.check(ns.uri == u, "add_namespace(%s) returned a namespace with another URI" % si)
@@ -86,8 +87,6 @@ def history(ctx):
                 else:
                     p = ctx.str("p", B["P"], 1, "prefix")
                 seen(p, u)
-                if p:
-                    shadow(si, p, u)
                 q = QualifiedName(Namespace(p, u), l)
                 r = S.valid_qualified_name(q)
                 ctx.check(r is not None, "QualifiedName resolved to None")
@@ -111,6 +110,7 @@ def history(ctx):
                 if not r.namespace.prefix:
                     ctx.finding("C03.default_local_with_colon", ":" in r.localpart)
                 handed.append((si, r))
+        shadow()
         # (b) every registered prefix still maps to the URI it was registered with
         for sj, pfx, u0 in registered:
             nss = [n for n in scopes[sj].namespaces if n.prefix == pfx]
